@@ -361,10 +361,10 @@ func checkReadMethod(c *Checker, rg *Ranger, fn *ssa.Function) {
 					continue
 				}
 				k, isK := intConst(bo.Y)
-				if !isK || k != 0 {
+				if !isK {
 					continue
 				}
-				if (bo.Op == token.EQL && !ft.Val) || (bo.Op == token.NEQ && ft.Val) || (bo.Op == token.GTR && ft.Val) {
+				if lenFactNonEmpty(bo.Op, k, ft.Val) {
 					lenCall = lc
 				}
 			}
@@ -693,6 +693,37 @@ func derivesFromLen(v ssa.Value, d int) bool {
 				return true
 			}
 		}
+	}
+	return false
+}
+
+// lenFactNonEmpty: the fact "Len() <op> k" (= val) implies Len() >= 1.
+func lenFactNonEmpty(op token.Token, k int64, val bool) bool {
+	if !val {
+		switch op {
+		case token.EQL:
+			op = token.NEQ
+		case token.NEQ:
+			op = token.EQL
+		case token.LSS:
+			op = token.GEQ
+		case token.LEQ:
+			op = token.GTR
+		case token.GTR:
+			op = token.LEQ
+		case token.GEQ:
+			op = token.LSS
+		}
+	}
+	switch op {
+	case token.NEQ:
+		return k == 0
+	case token.GTR:
+		return k >= 0
+	case token.GEQ:
+		return k >= 1
+	case token.EQL:
+		return k >= 1
 	}
 	return false
 }
